@@ -75,6 +75,16 @@ CHECKS = {
    note="Partial: global equivalence of the two constraint sets is decided per case by the partition oracle, not proved. One open known finding (duplicate auxiliary structure names, see known_findings.txt). Trusted: as C02 plus the harness .des reader and partition oracle. Axioms: none.",
    technique="Coq proofs on the .des model + line correspondence + constraint-partition oracle",
    design="5 C03"),
+ "C17": dict(
+   text="Proof on the model of apply_design (component level): a successful base pass means every non-empty base sequence takes its record's string of the declared length whose reverse complement is the starred record; the result depends only on the records of base sequences, their starred names and structures, so corrupting any other record changes nothing; a changed base record (starred record intact), a changed starred record, or a missing one is refused -- using injectivity of reverse complement from the C11 algebra (5 theorems, closed). Fault enumeration on real (.save,.mfe) pairs: every single-edit corruption (sequence positions x 15 substitutions / deletion / insertion, header rename / star toggle / collision / damage, numeric and structure fields, record drop / duplicate / swap, Total line) must make finish.finish fail or write byte-identical files; verdicts compared with the model wherever the harness's record reader and kinetics.read_design agree.",
+   note="Trusted: Coq kernel; extraction/driver; the harness .mfe reader (transcription of nupack_out_grammar; pyparsing itself is exercised, not modelled); pickle. The quick tier samples ~120 faults per design, the thorough tier enumerates all. Axioms: none.",
+   technique="Coq proofs on the finish model + single-fault enumeration against finish.finish",
+   design="5 C17"),
+ "C06": dict(
+   text="Proof (partial) on the finish model: whatever is written, every non-empty base sequence has its record's string of the declared length with the starred form its reverse complement, and every super-sequence and strand is the concatenation of its base sequences' values (2 theorems, closed). End-to-end correspondence: satisfiable generated components and system libraries, both layouts, compile -> get_constraints -> assignment satisfying the arrays -> process_results -> .mfe -> finish; the .seqs / strands files are checked against the source denotation (constraints, reverse complements, concatenations, Watson-Crick pairs of every target pair, agreement of ports bound to one signal through nested systems, completeness, non-dummy strands) and compared with the finish model; a few cases run through pepper-compiler / pepper-design-spurious (real spuriousSSM, NUPACK stub) / pepper-finish.",
+   note="Partial: success of the chain for every assignment satisfying the arrays is exercised, not proved (it would compose the designer and finish models). Unused sequences are undesigned by design of the tool (they keep their template codes); the oracle accepts a degenerate code that denotes a subset of the constraint. Trusted: as C17 plus the NUPACK stub and gcc build. Axioms: none.",
+   technique="Coq proofs on the finish model + end-to-end differential pipeline against the source denotation",
+   design="5 C06"),
 }
 
 checks = []
